@@ -5,6 +5,7 @@ requests and the two output streams are compared line by line.
 -/
 import Ajson.Model.Dump
 import Ajson.Model.Decode
+import Ajson.Model.Session
 
 open Ajson
 
@@ -48,15 +49,26 @@ def handle (line : String) : String :=
     | none => "bad-hex"
   | _ => "bad-req"
 
-partial def loop (hin : IO.FS.Stream) (hout : IO.FS.Stream) : IO Unit := do
+structure DriverState where
+  heap : Session := {}
+
+def handleSt (st : DriverState) (line : String) : DriverState × String :=
+  match line.splitOn "\t" with
+  | "heap" :: rest =>
+    let (s, out) := st.heap.step rest
+    ({ st with heap := s }, out)
+  | _ => (st, handle line)
+
+partial def loop (hin : IO.FS.Stream) (hout : IO.FS.Stream) (st : DriverState) : IO Unit := do
   let line ← hin.getLine
   if line.isEmpty then return ()
   let l := (line.dropEndWhile (· == '\n')).toString
-  hout.putStrLn (handle l)
-  loop hin hout
+  let (st', out) := handleSt st l
+  hout.putStrLn out
+  loop hin hout st'
 
 def main : IO Unit := do
   let hin ← IO.getStdin
   let hout ← IO.getStdout
-  loop hin hout
+  loop hin hout {}
   hout.flush
